@@ -185,6 +185,7 @@ def standalone(ctx, i, rng, case):
     STATE['b'] = b
     un = B.g().un
     nr = len(spec['rules'])
+    live = None
     ref = spec['_ref']
     for j in range(30):
         # a state: time axis entry, position and speed of every element via the last one and the ratios
@@ -197,6 +198,17 @@ def standalone(ctx, i, rng, case):
             b.elements[k].angular_position = un.AngularPosition(th * g, 'rad')
             b.elements[k].angular_speed = un.AngularSpeed(w * g, 'rad/s')
         b.motor.load_torque = un.Torque(rng.uniform(-0.5, 0.9) * GEN.qsi(spec['motor']['Tmax']), 'Nm')
+        if j == 15 and i % 4 == 1 and nr >= 1:
+            # the rule set is edited through the public `rules` list ("the rules to be applied"): one rule is taken out,
+            # or the order is reversed; from now on exactly the rules in that list are the rule set
+            if rng.random() < 0.7:
+                del b.control.rules[rng.randrange(len(b.control.rules))]
+                ctx.count('rules_removed_through_the_rules_list')
+            else:
+                b.control.rules.reverse()
+            live = [id(r_.inner) for r_ in b.control.rules]
+            nr = len(live)
+            kinds = kinds + ['(rules list edited)']
         before = len(b.rule_log)
         pwm_before = b.motor.pwm
         try:
@@ -208,10 +220,17 @@ def standalone(ctx, i, rng, case):
             ctx.violation('C14:apply_rules-raised', {'exception': type(ex).__name__ + ': ' + str(ex)[:150], 'rules': kinds}, case)
             return
         props = [v for (_, _, v) in b.rule_log[before:]]
-        if len(props) < nr or len(props) % nr:
+        if live is not None and sorted(set(x for (_, x, _) in b.rule_log[before:])) != sorted(set(live)):
+            ctx.violation('C14:rules-consulted-are-not-the-rules-list', {'rules_in_list': nr, 'distinct_rules_consulted': len(set(x for (_, x, _) in b.rule_log[before:])), 'rules': kinds}, case)
+            return
+        if nr == 0:
+            if props:
+                ctx.violation('C14:rules-consulted-are-not-the-rules-list', {'rules_in_list': 0, 'calls': len(props)}, case)
+                return
+        elif len(props) < nr or len(props) % nr:
             ctx.violation('C14:rule-not-consulted', {'rules': nr, 'calls': len(props)}, case)
             return
-        props = props[len(props) - nr:]
+        props = props[len(props) - nr:] if nr else []
         judge_round(ctx, props, out, b.motor.pwm, case, 'standalone', kinds)
         ctx.count('standalone_rounds')
     flush_ensure(ctx, case)
